@@ -465,6 +465,80 @@ func ruleXZWriterFormat(c *Ctx, r *Report, prefix string) {
 		}
 		r.Check(ok, rule, "putUvarint", c.Pos(putUvarint.Pos()), "multibyte integer encoding (7 bits per byte, little-endian, continuation bit)", "putUvarint does not produce the .xz variable-length integer encoding")
 	}
+	// any other encoder of this kind in the package (a function that shifts a uint64 right by 7:
+	// an append-style sibling of putUvarint) must produce the same encoding
+	for _, fn := range c.modFuncs {
+		if fn == putUvarint || fn.Blocks == nil || pkgPathOf(fn) != full("") || fn.Signature.Recv() != nil || len(fn.Params) != 2 || fn.Signature.Results().Len() != 1 {
+			continue
+		}
+		if _, isSl := fn.Params[0].Type().Underlying().(*types.Slice); !isSl {
+			continue
+		}
+		if bt, isB := fn.Params[1].Type().Underlying().(*types.Basic); !isB || bt.Kind() != types.Uint64 {
+			continue
+		}
+		shifts := false
+		for _, b := range fn.Blocks {
+			for _, ins := range b.Instrs {
+				if bo, isBo := ins.(*ssa.BinOp); isBo && bo.Op == token.SHR {
+					if k, isK := constInt(bo.Y); isK && k == 7 {
+						shifts = true
+					}
+				}
+			}
+		}
+		if !shifts {
+			continue
+		}
+		_, appendStyle := fn.Signature.Results().At(0).Type().Underlying().(*types.Slice)
+		ok, why := true, ""
+		for _, x := range []uint64{0, 1, 127, 128, 129, 255, 300, 16383, 16384, 16511, 2097151, 2097152, 1<<32 - 1, 1<<63 - 1} {
+			var want []int64
+			for v := x; ; {
+				if v >= 0x80 {
+					want = append(want, int64(v&0x7f|0x80))
+					v >>= 7
+				} else {
+					want = append(want, int64(v))
+					break
+				}
+			}
+			in := NewInterp(c)
+			var got []int64
+			if appendStyle {
+				res := in.Call(fn, []aval{byteSlice([]byte{0xAA}), aConst(constantFromUint64(x), types.Typ[types.Uint64])})
+				if !res.OK || len(res.Rets) != 1 {
+					ok, why = false, "cannot evaluate: "+in.Undecided
+					break
+				}
+				all, okB := sliceBytes(res.Rets[0])
+				if !okB || len(all) < 1 || all[0] != 0xAA {
+					ok, why = false, fmt.Sprintf("for %d the result does not keep the bytes already in the buffer", x)
+					break
+				}
+				got = all[1:]
+			} else {
+				buf := byteSlice(make([]byte, 10))
+				res := in.Call(fn, []aval{buf, aConst(constantFromUint64(x), types.Typ[types.Uint64])})
+				if !res.OK || len(res.Rets) != 1 {
+					ok, why = false, "cannot evaluate: "+in.Undecided
+					break
+				}
+				n, _ := res.Rets[0].Int()
+				all, _ := sliceBytes(buf)
+				if n < 0 || int(n) > len(all) {
+					ok, why = false, fmt.Sprintf("for %d the reported length is %d", x, n)
+					break
+				}
+				got = all[:n]
+			}
+			if !eqInt64s(got, want) {
+				ok, why = false, fmt.Sprintf("%s encodes %d as %v; the .xz multibyte integer is %v", FnName(fn), x, got, want)
+				break
+			}
+		}
+		r.Check(ok, rule, "uvarint-encoder:"+FnName(fn), c.Pos(fn.Pos()), "produces the .xz multibyte integer encoding on the boundary values", why)
+	}
 	// header / footer / block header CRC coverage on the marshal side
 	crcPut := func(fn *ssa.Function, fed role, dst role) bool {
 		for _, b := range theCtx.GB(fn) {
